@@ -136,66 +136,82 @@ Theorem resolve_pattern_id m r : reachable m -> In r (routes m) ->
 Proof. intro H. exact (resolve_registered m r (Lemmas.reachable_wf m H)). Qed.
 Print Assumptions resolve_pattern_id.
 
-(* one request that no middleware resolved before routing, for any precedence oracle
-   that picks from the matching set: the handler reached is registered for the method
-   and matches; Vars is what that pattern captured, the catch-all under its own name; the
-   handler and the middlewares (after next) are told the registered pattern; otherwise
-   404 with the negotiated encoder, or 405 when only another method matches *)
-Theorem serve_spec pick m me wire ar ap : sound pick -> reachable m ->
+(* one request, whatever the installed middlewares asked before routing (pre), for any
+   precedence oracle that picks from the matching set: the handler reached is registered
+   for the method and matches; Vars is what that pattern captured, the catch-all under its
+   own name; the handler and the middlewares after next are told the registered pattern,
+   and (URL path not empty) so was every middleware that asked before next — pattern and
+   Vars; otherwise 404 with the negotiated encoder, or 405 when only another method matches *)
+Theorem serve_spec pick m me wire pre ar ap : sound pick -> reachable m ->
   match set_path wire with
-  | None => serve pick m me wire [] ar ap = None
+  | None => serve pick m me wire pre ar ap = None
   | Some (path, raw) =>
     let segs := path_segs (route_path path raw) in
-    exists o, serve pick m me wire [] ar ap = Some o /\ o_pre o = [] /\
+    let n := count_true (firstn (length (mws m)) pre) in
+    exists o, serve pick m me wire pre ar ap = Some o /\
       match o_out o with
       | Handled h vs hp =>
         exists r capt, In r (cands m me segs) /\ r_h r = h /\ captured (r_pat r) wire = Some capt /\
           vs = map (rename (opt_name (catchall_name (r_pat r)))) capt /\
-          hp = goa_render (r_pat r) /\ o_post o = goa_render (r_pat r)
-      | NotFound e => cands m me segs = [] /\ other_method_matches m segs = false /\ e = response_encoder ar ap
-      | MethodNotAllowed => cands m me segs = [] /\ other_method_matches m segs = true
+          hp = goa_render (r_pat r) /\ o_post o = goa_render (r_pat r) /\
+          (wire <> [] -> o_pre o = repeat (hp, vs) n)
+      | NotFound e => cands m me segs = [] /\ other_method_matches m segs = false /\ e = response_encoder ar ap /\
+          (wire <> [] -> o_pre o = repeat ([], []) n /\ o_post o = [])
+      | MethodNotAllowed => cands m me segs = [] /\ other_method_matches m segs = true /\
+          (wire <> [] -> o_pre o = repeat ([], []) n /\ o_post o = [])
       end
   end.
-Proof. intros Hs Hm. exact (Lemmas.serve_spec pick Hs m me wire ar ap (Lemmas.reachable_wf m Hm)). Qed.
+Proof. intros Hs Hm. exact (Lemmas.serve_spec pick Hs m me wire pre ar ap (Lemmas.reachable_wf m Hm)). Qed.
 Print Assumptions serve_spec.
 
-Theorem dispatch_sound pick m me wire ar ap o h vs hp : sound pick -> reachable m ->
-  serve pick m me wire [] ar ap = Some o -> o_out o = Handled h vs hp ->
+(* the pattern (and the variables) reported to a middleware before next are the ones
+   reported to the handler and after next *)
+Theorem resolve_before_routing_agrees pick m me wire pre ar ap o h vs hp : sound pick -> reachable m ->
+  serve pick m me wire pre ar ap = Some o -> o_out o = Handled h vs hp -> wire <> [] ->
+  (forall a, In a (o_pre o) -> a = (hp, vs)) /\ o_post o = hp /\
+  length (o_pre o) = count_true (firstn (length (mws m)) pre).
+Proof. intros Hs Hm. exact (pre_agrees pick m me wire pre ar ap o h vs hp Hs (Lemmas.reachable_wf m Hm)). Qed.
+Print Assumptions resolve_before_routing_agrees.
+
+Theorem dispatch_sound pick m me wire pre ar ap o h vs hp : sound pick -> reachable m ->
+  serve pick m me wire pre ar ap = Some o -> o_out o = Handled h vs hp ->
   exists path raw r, set_path wire = Some (path, raw) /\
     In r (cands m me (path_segs (route_path path raw))) /\ r_h r = h.
-Proof. intros Hs Hm. exact (Lemmas.dispatch_sound pick Hs m me wire ar ap o h vs hp (Lemmas.reachable_wf m Hm)). Qed.
+Proof. intros Hs Hm. exact (Lemmas.dispatch_sound pick Hs m me wire pre ar ap o h vs hp (Lemmas.reachable_wf m Hm)). Qed.
 Print Assumptions dispatch_sound.
 
 (* a handler runs iff the matching set is not empty; 404 iff no route of any method
    matches the path; 405 iff only routes of other methods do *)
-Theorem dispatch_404 pick m me wire ar ap o path raw : sound pick -> reachable m ->
-  serve pick m me wire [] ar ap = Some o -> set_path wire = Some (path, raw) ->
+Theorem dispatch_404 pick m me wire pre ar ap o path raw : sound pick -> reachable m ->
+  serve pick m me wire pre ar ap = Some o -> set_path wire = Some (path, raw) ->
   let segs := path_segs (route_path path raw) in
   ((exists h vs hp, o_out o = Handled h vs hp) <-> cands m me segs <> []) /\
   (o_out o = NotFound (response_encoder ar ap) <-> cands m me segs = [] /\ other_method_matches m segs = false) /\
   (o_out o = MethodNotAllowed <-> cands m me segs = [] /\ other_method_matches m segs = true).
-Proof. intros Hs Hm. exact (dispatch_unhandled_iff pick Hs m me wire ar ap o path raw (Lemmas.reachable_wf m Hm)). Qed.
+Proof. intros Hs Hm. exact (dispatch_unhandled_iff pick Hs m me wire pre ar ap o path raw (Lemmas.reachable_wf m Hm)). Qed.
 Print Assumptions dispatch_404.
 
 (* exactly one registered route matches: its handler runs, its pattern is reported *)
-Theorem dispatch_unique pick m me wire ar ap o path raw r : sound pick -> reachable m ->
-  serve pick m me wire [] ar ap = Some o -> set_path wire = Some (path, raw) ->
+Theorem dispatch_unique pick m me wire pre ar ap o path raw r : sound pick -> reachable m ->
+  serve pick m me wire pre ar ap = Some o -> set_path wire = Some (path, raw) ->
   cands m me (path_segs (route_path path raw)) = [r] ->
   exists vs, o_out o = Handled (r_h r) vs (goa_render (r_pat r)) /\ o_post o = goa_render (r_pat r).
-Proof. intros Hs Hm. exact (Lemmas.dispatch_unique pick Hs m me wire ar ap o path raw r (Lemmas.reachable_wf m Hm)). Qed.
+Proof. intros Hs Hm. exact (Lemmas.dispatch_unique pick Hs m me wire pre ar ap o path raw r (Lemmas.reachable_wf m Hm)). Qed.
 Print Assumptions dispatch_unique.
 
 (* end to end: the URL built for a registered pattern is never answered 404/405; a
-   handler of the same method whose pattern matches runs and is told its own pattern;
-   when it is the handler of that pattern, Vars maps every wildcard name to `returned` *)
-Theorem built_request_served pick m r ip ar ap : sound pick -> reachable m ->
+   handler of the same method whose pattern matches runs and is told its own pattern, as
+   is every middleware before and after next; when it is the handler of that pattern,
+   Vars maps every wildcard name to `returned` *)
+Theorem built_request_served pick m r ip pre ar ap : sound pick -> reachable m ->
   In r (routes m) -> r_pat r = pat_of ip -> wf_ipat ip = true ->
   exists o r' vs,
-    serve pick m (r_meth r) (build_url ip) [] ar ap = Some o /\
+    serve pick m (r_meth r) (build_url ip) pre ar ap = Some o /\
     In r' (routes m) /\ r_meth r' = r_meth r /\ captured (r_pat r') (build_url ip) <> None /\
     o_out o = Handled (r_h r') vs (goa_render (r_pat r')) /\ o_post o = goa_render (r_pat r') /\
+    o_pre o = repeat (goa_render (r_pat r'), vs) (count_true (firstn (length (mws m)) pre)) /\
     (r' = r -> vs = returned ip).
-Proof. intros Hs Hm. exact (Lemmas.built_request_served pick Hs m r ip ar ap (Lemmas.reachable_wf m Hm)). Qed.
+Proof. intros Hs Hm. exact (Lemmas.built_request_served pick Hs m r ip pre ar ap (Lemmas.reachable_wf m Hm)). Qed.
 Print Assumptions built_request_served.
 
 (* ... and `returned` is the client's values exactly under the condition of vars_roundtrip_iff *)
@@ -218,46 +234,39 @@ Print Assumptions serve_double_unescape_refuted.
 
 (* ------------------------------------- ResolvePattern before the request is routed *)
 
-(* the finding: Use(mw); Handle(GET,"/f/{*p}"); mw calls ResolvePattern before next;
-   GET /f/a/b. The early call gets "/f/{*p}", but the handler and the middleware after
-   next get "/f/f/*" and Vars files the catch-all under the empty name — whatever chi's
-   precedence *)
-Theorem resolve_before_routing_refuted :
-  exists m me wire r, reachable m /\ routes m = [r] /\
-    forall pick ar ap, sound pick ->
-      exists o h vs hp, serve pick m me wire [true] ar ap = Some o /\
-        o_pre o = [goa_render (r_pat r)] /\ o_out o = Handled h vs hp /\ h = r_h r /\
-        hp <> goa_render (r_pat r) /\ o_post o <> goa_render (r_pat r) /\ In ([], v_a_b) vs.
-Proof.
-  exists w_mux2, GET, w_wire2, {| r_meth := GET; r_pat := [Lit b_f; CatchAll b_p]; r_h := 0 |}.
-  split; [exact w_mux2_reachable|]. split; [reflexivity|]. intros pick ar ap Hs.
-  destruct (resolve_before_routing_served pick Hs ar ap) as (o & E & Hpre & Hout & Hpost & Hg & _).
-  exists o, 0, [([], v_a_b); ([], v_a_b)], w_pat2_seen. cbn [r_pat r_h]. rewrite Hg, Hpost.
-  repeat split; try assumption; try discriminate. now left.
-Qed.
-Print Assumptions resolve_before_routing_refuted.
+(* regression cases of the defect fixed by bd5b058 (the early call wrote into the request's
+   routing context and matched the decoded path): Use(mw); Handle(GET,"/f/{*p}"); mw asks
+   before next; GET /f/a/b — early call, handler and late call all get "/f/{*p}" and
+   {p: "a/b"}, whatever chi's precedence *)
+Theorem resolve_before_routing_regression pick ar ap : sound pick ->
+  exists o, serve pick w_mux2 GET w_wire2 [true] ar ap = Some o /\
+    o_pre o = [(w_pat2_goa, [(b_p, v_a_b)])] /\ o_out o = Handled 0 [(b_p, v_a_b)] w_pat2_goa /\ o_post o = w_pat2_goa /\
+    goa_render [Lit b_f; CatchAll b_p] = w_pat2_goa.
+Proof. intro Hs. exact (resolve_before_routing_served pick Hs ar ap). Qed.
+Print Assumptions resolve_before_routing_regression.
 
-(* the same muxer and request without the early call: everything is reported correctly *)
-Theorem resolve_after_routing_ok pick ar ap : sound pick ->
-  exists o, serve pick w_mux2 GET w_wire2 [false] ar ap = Some o /\
-    o_pre o = [] /\ o_out o = Handled 0 [(b_p, v_a_b)] w_pat2_goa /\ o_post o = w_pat2_goa.
-Proof. intro Hs. exact (resolve_after_routing_served pick Hs ar ap). Qed.
-Print Assumptions resolve_after_routing_ok.
+(* GET /u/a%2Fb against "/u/{id}" (#0) and "/u/{a}/{b}" (#1): the early call now reports
+   "/u/{id}" and {id: "a/b"}, the route chi runs *)
+Theorem resolve_decoded_path_regression ar ap :
+  exists o, serve first_pick w_mux3 GET w_wire3 [true] ar ap = Some o /\
+    o_pre o = [(goa_render [Lit b_u; Var b_id], [(b_id, v_a_b)])] /\
+    o_out o = Handled 0 [(b_id, v_a_b)] (goa_render [Lit b_u; Var b_id]) /\
+    o_post o = goa_render [Lit b_u; Var b_id].
+Proof. exact (resolve_decoded_path_served ar ap). Qed.
+Print Assumptions resolve_decoded_path_regression.
 
-(* the early call matches the decoded URL.Path: with RawPath set it can report the
-   pattern of a route other than the one chi then runs, and leave that route's
-   variables in Vars (GET /u/a%2Fb against "/u/{id}" and "/u/{a}/{b}") *)
-Theorem resolve_decoded_path_refuted :
-  exists pick m me wire, sound pick /\ reachable m /\ forall ar ap,
-    exists o vs hp, serve pick m me wire [true] ar ap = Some o /\
-      o_pre o = [goa_render [Lit b_u; Var b_a; Var b_b]] /\ o_out o = Handled 0 vs hp /\
-      vs = [(b_a, b_a); (b_b, b_b); (b_id, v_a_b)] /\ hp <> goa_render [Lit b_u; Var b_id].
+(* what is left (finding): a URL with an empty path is routed by chi as "/", the early
+   call matches "" and reports no pattern — the hypothesis `wire <> []` above is needed *)
+Theorem resolve_empty_path_refuted :
+  exists m, reachable m /\ forall pick ar ap, sound pick ->
+    exists o, serve pick m GET [] [true] ar ap = Some o /\
+      o_pre o = [([], [])] /\ o_out o = Handled 0 [] [slash] /\ o_post o = [slash].
 Proof.
-  exists first_pick, w_mux3, GET, w_wire3. split; [exact first_pick_sound|]. split; [exact w_mux3_reachable|].
-  intros ar ap. destruct (resolve_decoded_path_served ar ap) as (o & E & Hpre & vs & hp & Hout & Hvs & Hhp).
-  exists o, vs, hp. split; [exact E|]. split; [exact Hpre|]. split; [exact Hout|]. split; [exact Hvs|exact Hhp].
+  exists w_mux4. split; [exact w_mux4_reachable|]. intros pick ar ap Hs.
+  destruct (empty_path_served pick Hs ar ap) as (o & E & H1 & H2 & H3 & _).
+  exists o. split; [exact E|]. split; [exact H1|]. split; [exact H2|exact H3].
 Qed.
-Print Assumptions resolve_decoded_path_refuted.
+Print Assumptions resolve_empty_path_refuted.
 
 (* ------------------------------------------------------- the not-found body *)
 
